@@ -87,13 +87,13 @@ func (w *C21World) pub(i int) []byte {
 	b, _ := w.Key(i).PublicKey.EncodePoint(true)
 	return b
 }
-func (w *C21World) OwnerKey(i int) []byte      { return w.pub(c21KOwner + i) }
-func (w *C21World) NodeKey(i, alt int) []byte  { return w.pub(c21KNode + alt*c21Owners + i) }
-func (w *C21World) StakerCode(j int) []byte    { return w.Key(c21KStaker + j).RedeemScript }
-func (w *C21World) CROwnerKey(i int) []byte    { return w.pub(c21KCR + i) }
+func (w *C21World) OwnerKey(i int) []byte       { return w.pub(c21KOwner + i) }
+func (w *C21World) NodeKey(i, alt int) []byte   { return w.pub(c21KNode + alt*c21Owners + i) }
+func (w *C21World) StakerCode(j int) []byte     { return w.Key(c21KStaker + j).RedeemScript }
+func (w *C21World) CROwnerKey(i int) []byte     { return w.pub(c21KCR + i) }
 func (w *C21World) CRNodeKey(i, alt int) []byte { return w.pub(c21KCRNode + alt*4 + i) }
-func (w *C21World) CRCArbiterKey(i int) []byte { return w.pub(c21KCRC + i) }
-func (w *C21World) OriginKey(i int) []byte     { return w.pub(c21KOrigin + i) }
+func (w *C21World) CRCArbiterKey(i int) []byte  { return w.pub(c21KCRC + i) }
+func (w *C21World) OriginKey(i int) []byte      { return w.pub(c21KOrigin + i) }
 
 func (w *C21World) DepositHash(owner int) common.Uint168 {
 	ct, _ := contract.CreateDepositContractByPubKey(w.Key(c21KOwner + owner).PublicKey)
